@@ -33,8 +33,8 @@ def secs(ticks):
     return repr(ticks * TICK)
 
 
-def make_script(case):
-    out = ["T = {}", ""]
+def _cb_lines(case):
+    out = []
     if case.get("cbform") == "method":
         # distinct callables sharing one underlying function: bound methods of distinct instances, each stored once
         out += ["class CbK:",
@@ -64,60 +64,113 @@ def make_script(case):
             if cb["raise"]:
                 out.append("    raise ValueError('callback')")
             out.append("")
-    for i, tk in enumerate(case["tasks"]):
-        kind = tk["kind"]
-        if kind == "ev":
-            out.append(f"@event_trigger('pv_go_{i}')")
-            out.append(f"def body{i}(**kw):")
-        elif kind == "st":
-            out.append(f"@state_trigger(\"pyscript.pv_v{i} == 'go'\")")
-            out.append(f"def body{i}(**kw):")
-        elif kind in ("svc", "csvc"):
-            out.append("@service")
-            out.append(f"def body{i}():")
-        else:
-            out.append(f"def body{i}():")
-        if kind != "create":
-            out.append(f"    T[{i}] = task.current_task()")
-        out.append("    try:")
-        ind = "        "
-        steps = tk["steps"]
-        for k, st in enumerate(steps):
-            out.append(f"{ind}event.fire('pv_e', ev='m', k={k})")
-            op = st[0]
-            if op == "sleep":
-                out.append(f"{ind}task.sleep({secs(st[1])})")
-            elif op == "add":
-                out.append(f"{ind}task.add_done_callback(T[{st[1]}], cb{st[2]}, {st[3]})")
-            elif op == "rem":
-                out.append(f"{ind}task.remove_done_callback(T[{st[1]}], cb{st[2]})")
-            elif op == "wait":
-                out.append(f"{ind}task.wait({{T[{st[1]}]}})")
-                out.append(f"{ind}event.fire('pv_e', ev='w', x={st[1]})")
-            elif op == "cancel":
-                out.append(f"{ind}task.cancel(T[{st[1]}])")
-            elif op == "cancelself":
-                out.append(f"{ind}task.cancel()")
-            elif op == "create":
-                out.append(f"{ind}T[{st[1]}] = task.create(body{st[1]})")
-            elif op == "claim":
-                out.append(f"{ind}task.unique('n{st[1]}')")
-            elif op == "call":
-                out.append(f"{ind}service.call('pyscript', 'body{st[1]}', blocking=True)")
-                out.append(f"{ind}event.fire('pv_e', ev='r', x={st[1]})")
-            elif op == "raise":
-                out.append(f"{ind}raise ValueError('body')")
-            elif op == "ret":
-                out.append(f"{ind}return {st[1]}")
+    return out
+
+
+def fn_name(case, i):
+    tk = case["tasks"][i]
+    return f"fng{tk['fn']}" if tk.get("fn") is not None else f"body{i}"
+
+
+def _step_lines(case, i, ind):
+    """every event carries the run's local variable `me`: a run must keep its own frame while others run"""
+    out = []
+    steps = case["tasks"][i]["steps"]
+    for k, st in enumerate(steps):
+        out.append(f"{ind}event.fire('pv_e', ev='m', k={k}, me=me)")
+        op = st[0]
+        if op == "sleep":
+            out.append(f"{ind}task.sleep({secs(st[1])})")
+        elif op == "add":
+            out.append(f"{ind}task.add_done_callback(T[{st[1]}], cb{st[2]}, {st[3]})")
+        elif op == "rem":
+            out.append(f"{ind}task.remove_done_callback(T[{st[1]}], cb{st[2]})")
+        elif op == "wait":
+            out.append(f"{ind}task.wait({{T[{st[1]}]}})")
+            out.append(f"{ind}event.fire('pv_e', ev='w', x={st[1]}, me=me)")
+        elif op == "cancel":
+            out.append(f"{ind}task.cancel(T[{st[1]}])")
+        elif op == "cancelself":
+            out.append(f"{ind}task.cancel()")
+        elif op == "create":
+            c = st[1]
+            if case["tasks"][c].get("fn") is not None:
+                out.append(f"{ind}T[{c}] = task.create({fn_name(case, c)}, {c})")
             else:
-                raise ValueError(f"unknown step {st!r}")
-        if not steps or steps[-1][0] not in ("raise", "ret"):
-            out.append(f"{ind}event.fire('pv_e', ev='m', k={len(steps)})")
-        out.append("    except Exception as e:")
-        out.append("        event.fire('pv_e', ev='x', e=type(e).__name__)")
-        out.append("        raise e")
-        out.append("")
-    return "\n".join(out) + "\n"
+                out.append(f"{ind}T[{c}] = task.create(body{c})")
+        elif op == "claim":
+            out.append(f"{ind}task.unique('n{st[1]}')")
+        elif op == "call":
+            out.append(f"{ind}service.call('pyscript', 'body{st[1]}', blocking=True)")
+            out.append(f"{ind}event.fire('pv_e', ev='r', x={st[1]}, me=me)")
+        elif op == "raise":
+            out.append(f"{ind}raise ValueError('body')")
+        elif op == "ret":
+            out.append(f"{ind}return {st[1]}")
+        else:
+            raise ValueError(f"unknown step {st!r}")
+    if not steps or steps[-1][0] not in ("raise", "ret"):
+        out.append(f"{ind}event.fire('pv_e', ev='m', k={len(steps)}, me=me)")
+    return out
+
+
+def _unit_lines(case, members):
+    """one function: a single task, or several tasks (overlapping runs) of the SAME function told apart by argument `run`"""
+    i0 = members[0]
+    kind = case["tasks"][i0]["kind"]
+    grouped = case["tasks"][i0].get("fn") is not None
+    name = fn_name(case, i0)
+    out = []
+    if kind == "ev":
+        out.append(f"@event_trigger('pv_go_{name}')")
+        out.append(f"def {name}(run=None, **kw):" if grouped else f"def {name}(**kw):")
+    elif kind == "st":
+        out.append(f"@state_trigger(\"pyscript.pv_v{i0} == 'go'\")")
+        out.append(f"def {name}(**kw):")
+    elif kind == "shut":
+        out.append("@time_trigger('shutdown')")
+        out.append(f"def {name}(**kw):")
+    elif kind in ("svc", "csvc"):
+        out.append("@service")
+        out.append(f"def {name}(run=None):" if grouped else f"def {name}():")
+    else:
+        out.append(f"def {name}(run):" if grouped else f"def {name}():")
+    out.append("    me = run" if grouped else f"    me = {i0}")
+    if kind != "create":
+        out.append("    T[me] = task.current_task()")
+    out.append("    try:")
+    if grouped:
+        for n, i in enumerate(members):
+            out.append(f"        {'if' if n == 0 else 'elif'} me == {i}:")
+            out += _step_lines(case, i, "            ")
+    else:
+        out += _step_lines(case, i0, "        ")
+    out.append("    except Exception as e:")
+    out.append("        event.fire('pv_e', ev='x', e=type(e).__name__, me=me)")
+    out.append("        raise e")
+    out.append("")
+    return out
+
+
+def make_scripts(case):
+    """-> {"c14.py": text[, "c14s.py": text]}; a shutdown-trigger task lives in its own file (reloaded to start it)"""
+    units = {}
+    for i, tk in enumerate(case["tasks"]):
+        key = ("g", tk["fn"]) if tk.get("fn") is not None else ("t", i)
+        units.setdefault(key, []).append(i)
+    main = ["T = {}", ""] + _cb_lines(case)
+    shut = ["T = {}", ""] + _cb_lines(case)
+    has_shut = False
+    for members in units.values():
+        if case["tasks"][members[0]]["kind"] == "shut":
+            shut += _unit_lines(case, members)
+            has_shut = True
+        else:
+            main += _unit_lines(case, members)
+    files = {"c14.py": "\n".join(main) + "\n"}
+    if has_shut:
+        files["c14s.py"] = "\n".join(shut) + "\n"
+    return files
 
 
 def result_code(t):
@@ -147,7 +200,8 @@ async def run_case(case):
     ntasks = len(case["tasks"])
     events = []
     errs = []
-    async with PyscriptEnv(files={"c14.py": make_script(case)}, legacy=legacy) as env:
+    files = make_scripts(case)
+    async with PyscriptEnv(files=files, legacy=legacy) as env:
         hass = env.hass
         loop = asyncio.get_running_loop()
         for i, tk in enumerate(case["tasks"]):
@@ -157,7 +211,32 @@ async def run_case(case):
         gctx = GlobalContextMgr.get("file.c14")
         if gctx is None:
             raise RuntimeError("script file.c14 was not loaded: " + repr(env.log.records[-3:]))
-        table = gctx.global_sym_table["T"]
+        tables = [gctx.global_sym_table["T"]]
+        if "c14s.py" in files:
+            gs = GlobalContextMgr.get("file.c14s")
+            if gs is None:
+                raise RuntimeError("script file.c14s was not loaded: " + repr(env.log.records[-3:]))
+            tables.append(gs.global_sym_table["T"])      # the dict of the context that is about to be reloaded
+
+        class _Table:
+            """the scripts' tables T (task number -> asyncio task) of both files"""
+
+            @staticmethod
+            def get(i, default=None):
+                for tb in tables:
+                    if i in tb:
+                        return tb[i]
+                return default
+
+            @staticmethod
+            def items():
+                return [kv for tb in tables for kv in tb.items()]
+
+            @staticmethod
+            def values():
+                return [v for tb in tables for v in tb.values()]
+
+        table = _Table
         base = loop.time()
         baseline_cb = set(Function.task2cb.keys())
         baseline_ctx = set(Function.task2context.keys())
@@ -217,6 +296,8 @@ async def run_case(case):
             who = who_of(asyncio.current_task())
             ev = d.get("ev")
             t = now_ticks()
+            if "me" in d and d["me"] != who:
+                events.append([t, who, "l", d["me"] if isinstance(d["me"], int) and d["me"] >= 0 else 97, snap()])
             if ev == "m":
                 events.append([t, who, "m", d["k"], snap()])
                 arm(who, ["step", d["k"]])
@@ -237,13 +318,18 @@ async def run_case(case):
         inj = sorted((tk["at"], i) for i, tk in enumerate(case["tasks"]) if tk["kind"] not in ("create", "csvc"))
         for at, i in inj:
             await sleep_until(base + at * TICK)
-            kind = case["tasks"][i]["kind"]
+            tk = case["tasks"][i]
+            kind = tk["kind"]
+            data = {"run": i} if tk.get("fn") is not None else {}
             if kind == "ev":
-                hass.bus.async_fire(f"pv_go_{i}")
+                hass.bus.async_fire(f"pv_go_{fn_name(case, i)}", data)
             elif kind == "st":
                 hass.states.async_set(f"pyscript.pv_v{i}", "go")
+            elif kind == "shut":
+                # reloading the file stops its triggers: the shutdown trigger of the old context runs now
+                hass.async_create_task(hass.services.async_call("pyscript", "reload", {"global_ctx": "file.c14s"}, blocking=True))
             else:
-                await hass.services.async_call("pyscript", f"body{i}", {}, blocking=False)
+                await hass.services.async_call("pyscript", fn_name(case, i), data, blocking=False)
         await sleep_until(base + case["horizon"] * TICK)
         await settle()
 
@@ -261,10 +347,13 @@ async def run_case(case):
         for key, tsk in sorted(Function.unique_name2task.items(), key=lambda kv: str(kv[0])):
             # keys are "ctx.name" strings, or (ctx, name) pairs once the D17 repair is in
             name = ".".join(key) if isinstance(key, tuple) else key
-            if name.startswith("file.c14.n"):
+            if name.startswith("file.c14.n") and name[len("file.c14.n"):].isdigit():
                 names.append([int(name[len("file.c14.n"):]), rev.get(id(tsk), -1)])
+            elif name.startswith("file.c14s.n") and name[len("file.c14s.n"):].isdigit():
+                names.append([10 + int(name[len("file.c14s.n"):]), rev.get(id(tsk), -1)])     # names of the shutdown file: 10 + n
             else:
                 names.append([-1, -1])
+        names.sort()
         known = set(table.values())
         stray = (len([t for t in Function.task2cb if t not in known and t not in baseline_cb])
                  + len([t for t in Function.task2context if t not in known and t not in baseline_ctx])
